@@ -4482,3 +4482,89 @@ func checkExprWithLits(e ast.Expr, known map[string][]string, checkExpr func(ast
 		return true
 	})
 }
+
+// UI1 (C03/C14): union case numbers do not count the null case. The wire index / variant index of a union case is its
+// position among the NON-null cases (the runtimes add the null offset themselves). A loop over the cases that skips
+// the null case (`if tc.Type == nil { continue }`) therefore numbers the cases with a counter of its own; the range
+// position, which counts the skipped null case, is one too high for `[null, A, B]`.
+func ruleUnionIndexSkipsNull(c *core.Ctx) {
+	const rule = "UI1"
+	c.Rule(rule, "in every loop over dsl.TypeCases that skips the null case with `continue`, the range position is not used (case numbers come from a counter of the non-null cases)", 3)
+	n := 0
+	for _, d := range c.AllDecls() {
+		p := c.DeclPkg(d)
+		if p == nil || d.Body == nil || c.IsTestFile(d.Pos()) || !strings.HasPrefix(p.PkgPath, core.Mod) {
+			continue
+		}
+		info := p.TypesInfo
+		ast.Inspect(d.Body, func(nn ast.Node) bool {
+			rs, ok := nn.(*ast.RangeStmt)
+			if !ok || rs.Value == nil {
+				return true
+			}
+			nt := core.NamedOf(info.TypeOf(rs.X))
+			if nt == nil || nt.Obj().Name() != "TypeCases" {
+				return true
+			}
+			val := identObj(info, rs.Value)
+			if val == nil {
+				return true
+			}
+			// a top-level `if <val>.Type == nil { continue }` (or IsNullType())
+			var skip *ast.IfStmt
+			for _, st := range rs.Body.List {
+				is, ok := st.(*ast.IfStmt)
+				if !ok || is.Else != nil || len(is.Body.List) != 1 {
+					continue
+				}
+				br, ok := is.Body.List[0].(*ast.BranchStmt)
+				if !ok || br.Tok != token.CONTINUE {
+					continue
+				}
+				nullTest := false
+				switch x := ast.Unparen(is.Cond).(type) {
+				case *ast.BinaryExpr:
+					if x.Op == token.EQL {
+						for _, side := range [][2]ast.Expr{{x.X, x.Y}, {x.Y, x.X}} {
+							if se, ok := ast.Unparen(side[0]).(*ast.SelectorExpr); ok && se.Sel.Name == "Type" && identObj(info, se.X) == val {
+								if tv, ok := info.Types[side[1]]; ok && tv.IsNil() {
+									nullTest = true
+								}
+							}
+						}
+					}
+				case *ast.CallExpr:
+					if se, ok := ast.Unparen(x.Fun).(*ast.SelectorExpr); ok && se.Sel.Name == "IsNullType" && identObj(info, se.X) == val {
+						nullTest = true
+					}
+				}
+				if nullTest {
+					skip = is
+				}
+			}
+			if skip == nil {
+				return true
+			}
+			n++
+			key := fmt.Sprintf("%s/range %s", c.FuncName(d), types.ExprString(rs.X))
+			var use *ast.Ident
+			if kobj := identObj(info, rs.Key); kobj != nil {
+				ast.Inspect(rs.Body, func(m ast.Node) bool {
+					if id, ok := m.(*ast.Ident); ok && info.Uses[id] == kobj && use == nil {
+						use = id
+					}
+					return true
+				})
+			}
+			if use == nil {
+				c.OK(rule, key, rs.Pos(), "the range position is not used; the cases are numbered by a separate counter (or not at all)")
+			} else {
+				c.Bad(rule, key, use.Pos(), "the loop skips the null case but uses the range position `"+use.Name+"`: for `[null, A, B]` the position of A is 1 where its case number is 0 — every value of a nullable union is written with the next case's number (or an index past the end)")
+			}
+			return true
+		})
+	}
+	if n == 0 {
+		c.Undecided(rule, "anchor/loops over TypeCases skipping null", 0, "none found")
+	}
+}
